@@ -12,6 +12,17 @@ BASE_NOTE = (
 
 # property -> (category, text, technique, design_ref, extra note)
 CLAIMS = {
+    "C04": (
+        "other",
+        "Contracts on the real printers: StringLiteral.__str__ (for every value: quoted with a quote that does not occur in it, no escapes -- z3/cvc5 string theory); "
+        "BooleanExpression.__str__ executed symbolically by pyvc on an instance of every (class, parent class, side, right-edge) combination the printer's parenthesisation decision depends on (501 trees over the real expression classes), "
+        "each printed condition regrouped by the parser's grouping function (lemma L-Pratt, contracts/C04_lemma.md, real PRECEDENCES table) and compared with the tree; "
+        "tag printers (pyvc-flow): open/close with their own tag's name, print every field the render method uses through that field's printer, add no stray braces. "
+        "The round trip through the regular-expression lexers (parses, renders identically on 5 data sets, second serialisation identical) is a bounded run-time contract over ~1000 (quick) / ~5000 (thorough) generated templates.",
+        "deductive contracts on printers (pyvc symbolic execution, z3/cvc5) + structural printer obligations (pyvc-flow) + bounded round-trip contract",
+        "DESIGN.md section 4 C04; contracts/C04_lemma.md",
+        "Lemma L-Pratt is pen-and-paper; the lexers are not modelled. Known finding: nil prints as the empty string (pinned by the test suite).",
+    ),
     "C11": (
         "proof",
         "Contracts on the real compile_liquid_rules, get_lexer, Environment.tokenizer and LiquidTag.__init__, executed symbolically by pyvc over six arbitrary delimiter strings with re.escape uninterpreted: every pattern handed to re.compile contains a delimiter only under re.escape, "
